@@ -7,6 +7,7 @@ import (
 	"go/types"
 	"strings"
 
+	"golibcheck/internal/bits"
 	"golibcheck/internal/core"
 	"golibcheck/internal/locks"
 	"golibcheck/internal/paths"
@@ -51,6 +52,9 @@ func runC06(p *core.Program, r *core.Report) {
 	c05Frame(p, r, "C06.license", true)
 	r.Rule("C06.frame", "every frame is header + int-length-prefixed body: WriteHeader copies the body out of the buffer before it resets the buffer and writes the header in front (shared with C05.frame)", 3)
 	c05Frame(p, r, "C06.frame", false)
+	r.Rule("C06.encodings", "what a frame carries decodes to the pack that was sent: the variable-length decimal classes and the blob/text length classes the pack bodies are written with are the protocol's (shared with C01.decimal / C01.blob)", 15)
+	c01Decimal(p, r, &bits.Interp{P: p}, "C06.encodings")
+	c01Blob(p, r, "C06.encodings")
 	r.Rule("C06.queue", "the queue behind queue mode keeps its contract (C11's put/get/timeout/wake-up/FIFO rules on util/queue.RequestQueue): nothing accepted is dropped, taken twice or left waiting for ever", 8)
 	importQueueRules(p, r, "C06.queue")
 
